@@ -2,9 +2,10 @@ package props
 
 import (
 	"bytes"
+	"errors"
 	"fmt"
+	"io"
 	"strings"
-	"time"
 
 	"tunnox-core/internal/packet"
 	"tunnox-core/internal/stream"
@@ -181,18 +182,76 @@ func c01Run(w *simrt.World, tier string) {
 		simnet.LawNames[cfg.LawAB], cfg.Capacity, cfg.CutsAB, strings.Join(desc, " ")))
 	w.State(fmt.Sprintf("%v/%s/cap%d", cfg.Message, simnet.LawNames[cfg.LawAB], cfg.Capacity))
 
+	// reverse traffic (half of the runs): both ends are full-duplex processors, as in the product, so
+	// the read path of one direction interleaves with the write path of the other on the same processor
+	var rev []c01pkt
+	if c.Intn(2, "duplex") == 1 {
+		cfg.LawBA = simnet.Law(c.Intn(6, "net.law.rev"))
+		nr := 1 + c.Intn(5, "npkts.rev")
+		for i := 0; i < nr; i++ {
+			var p c01pkt
+			p.typ = []packet.Type{packet.TunnelData, packet.Heartbeat, packet.HandshakeResp, packet.TunnelOpenAck}[c.Intn(4, "ptype.rev")]
+			if p.typ != packet.Heartbeat {
+				p.payload = c01Fill(c, []int{300, 1, 0, 70000, 255, 256, 65536, 4093}[c.Intn(8, "size.rev")])
+			}
+			rev = append(rev, p)
+		}
+		w.Probe("duplex")
+	}
 	a, b := simnet.NewLink(w, cfg)
-	wsp := stream.NewStreamProcessor(nil, a, w.Ctx)
-	rsp := stream.NewStreamProcessor(b, nil, w.Ctx)
+	spA := stream.NewStreamProcessor(a, a, w.Ctx)
+	spB := stream.NewStreamProcessor(b, b, w.Ctx)
+	fw := c01StartDirection(w, "fwd", spA, spB, a, b, pkts)
+	var bw *c01dir
+	if len(rev) > 0 {
+		bw = c01StartDirection(w, "rev", spB, spA, b, a, rev)
+	}
+	fw.wait()
+	if bw != nil {
+		bw.wait()
+	}
+	// non-triviality: a cut really happened or packets coalesced
+	if b.Reads() > len(fw.accepted) || (len(fw.accepted) > 1 && b.Reads() < 3*len(fw.accepted)) {
+		w.Nontrivial()
+	}
+	if b.Reads() > 3*len(fw.accepted) {
+		w.Probe("read.split_inside_packet")
+	}
+	w.Probe("law." + simnet.LawNames[cfg.LawAB])
+	if cfg.Message {
+		w.Probe("transport.message")
+	} else {
+		w.Probe("transport.stream")
+	}
+	if !fw.check(w, cfg, "") {
+		return
+	}
+	if bw != nil {
+		bw.check(w, cfg, ":reverse-direction")
+	}
+}
 
-	var accepted []c01sent
-	writerDone := false
-	wt := w.Spawn("writer", func() {
+// c01dir is one direction of traffic: a writer task on src, a reader task on dst.
+type c01dir struct {
+	name       string
+	pkts       []c01pkt
+	accepted   []c01sent
+	got        []*packet.TransferPacket
+	gotBytes   []int
+	rerr       error
+	wt, rt     *simrt.Task
+	srcConn    *simnet.Conn
+	dstConn    *simnet.Conn
+}
+
+func c01StartDirection(w *simrt.World, name string, src, dst *stream.StreamProcessor, srcConn, dstConn *simnet.Conn, pkts []c01pkt) *c01dir {
+	d := &c01dir{name: name, pkts: pkts, srcConn: srcConn, dstConn: dstConn}
+	d.wt = w.Spawn("writer-"+name, func() {
 		for _, p := range pkts {
 			tp := &packet.TransferPacket{PacketType: p.typ, Payload: p.payload, CommandPacket: p.cmd}
-			before := a.BytesWritten()
-			nb, err := wsp.WritePacket(tp, p.compress, 0)
-			wrote := int(a.BytesWritten() - before)
+			before := srcConn.BytesWritten()
+			nb, err := src.WritePacket(tp, p.compress, 0)
+			wrote := int(srcConn.BytesWritten() - before)
 			if err != nil {
 				if wrote == 0 {
 					w.Probe("writer.rejected")
@@ -204,54 +263,39 @@ func c01Run(w *simrt.World, tier string) {
 			if nb != wrote {
 				w.Violationf("C01:writer-count", "WritePacket reported %d bytes but wrote %d for %v", nb, wrote, p)
 			}
-			accepted = append(accepted, c01sent{p, wrote})
+			d.accepted = append(d.accepted, c01sent{p, wrote})
 		}
-		writerDone = true
-		a.CloseWrite()
+		srcConn.CloseWrite()
 	})
-	var got []*packet.TransferPacket
-	var gotBytes []int
-	var rerr error
-	rt := w.Spawn("reader", func() {
+	d.rt = w.Spawn("reader-"+name, func() {
 		for {
-			tp, nb, err := rsp.ReadPacket()
+			tp, nb, err := dst.ReadPacket()
 			if err != nil {
-				rerr = err
-				b.Close() // what a server does with a connection it cannot decode
+				d.rerr = err
+				if !errors.Is(err, io.EOF) || dstConn.Pending() > 0 {
+					dstConn.Close() // what a server does with a connection it cannot decode
+				}
 				return
 			}
-			got = append(got, tp)
-			gotBytes = append(gotBytes, nb)
+			d.got = append(d.got, tp)
+			d.gotBytes = append(d.gotBytes, nb)
 		}
 	})
-	wt.Wait()
-	rt.Wait()
-	_ = writerDone
+	return d
+}
 
-	// non-triviality: a cut really happened or packets coalesced
-	if b.Reads() > len(accepted) || (len(accepted) > 1 && b.Reads() < 3*len(accepted)) {
-		w.Nontrivial()
-	}
-	if b.Reads() > 3*len(accepted) {
-		w.Probe("read.split_inside_packet")
-	}
-	w.Probe("law." + simnet.LawNames[cfg.LawAB])
-	if cfg.Message {
-		w.Probe("transport.message")
-	} else {
-		w.Probe("transport.stream")
-	}
+func (d *c01dir) wait() {
+	d.wt.Wait()
+	d.rt.Wait()
+}
 
-	// oracle: sequence equality against the generator's own list
+// check is the oracle: sequence equality against the generator's own list plus byte accounting.
+func (d *c01dir) check(w *simrt.World, cfg simnet.LinkConfig, suffix string) bool {
+	accepted, got, gotBytes, rerr := d.accepted, d.got, d.gotBytes, d.rerr
 	for i, s := range accepted {
 		if i >= len(got) {
-			class := "hdr"
-			if len(s.p.payload) == 0 && s.p.cmd == nil && s.p.typ != packet.Heartbeat {
-				class = "empty-body"
-			}
-			_ = class
-			w.Violationf("C01:missing-packet"+c01Class(accepted, i, cfg), "packet %d %v was written (%d bytes) but never decoded; reader stopped after %d packets with error: %v", i, s.p, s.bytes, len(got), rerr)
-			return
+			w.Violationf("C01:missing-packet"+c01Class(accepted, i, cfg)+suffix, "[%s] packet %d %v was written (%d bytes) but never decoded; reader stopped after %d packets with error: %v", d.name, i, s.p, s.bytes, len(got), rerr)
+			return false
 		}
 		g := got[i]
 		wantT := s.p.typ
@@ -259,31 +303,32 @@ func c01Run(w *simrt.World, tier string) {
 			wantT |= packet.Compressed
 		}
 		if g.PacketType != wantT {
-			w.Violationf("C01:type-mismatch"+c01Class(accepted, i, cfg), "packet %d: wrote type %#x, decoded %#x (%v)", i, byte(wantT), byte(g.PacketType), s.p)
-			return
+			w.Violationf("C01:type-mismatch"+c01Class(accepted, i, cfg)+suffix, "[%s] packet %d: wrote type %#x, decoded %#x (%v)", d.name, i, byte(wantT), byte(g.PacketType), s.p)
+			return false
 		}
 		if s.p.cmd != nil {
 			if g.CommandPacket == nil || *g.CommandPacket != *s.p.cmd {
-				w.Violationf("C01:command-mismatch", "packet %d: command packet differs", i)
-				return
+				w.Violationf("C01:command-mismatch"+suffix, "[%s] packet %d: command packet differs", d.name, i)
+				return false
 			}
 		} else if !bytes.Equal(g.Payload, s.p.payload) {
-			w.Violationf("C01:body-mismatch"+c01Class(accepted, i, cfg), "packet %d %v: decoded body len %d differs (first diff at %d)", i, s.p, len(g.Payload), firstDiff(g.Payload, s.p.payload))
-			return
+			w.Violationf("C01:body-mismatch"+c01Class(accepted, i, cfg)+suffix, "[%s] packet %d %v: decoded body len %d differs (first diff at %d)", d.name, i, s.p, len(g.Payload), firstDiff(g.Payload, s.p.payload))
+			return false
 		}
 		if gotBytes[i] != s.bytes {
-			w.Violationf("C01:consumed-count", "packet %d %v: writer produced %d bytes, reader reported consuming %d", i, s.p, s.bytes, gotBytes[i])
-			return
+			w.Violationf("C01:consumed-count"+suffix, "[%s] packet %d %v: writer produced %d bytes, reader reported consuming %d", d.name, i, s.p, s.bytes, gotBytes[i])
+			return false
 		}
 	}
 	if len(got) > len(accepted) {
-		w.Violationf("C01:extra-packet", "decoded %d packets but only %d were written; extra: type %#x len %d", len(got), len(accepted), byte(got[len(accepted)].PacketType), len(got[len(accepted)].Payload))
-		return
+		w.Violationf("C01:extra-packet"+suffix, "[%s] decoded %d packets but only %d were written; extra: type %#x len %d", d.name, len(got), len(accepted), byte(got[len(accepted)].PacketType), len(got[len(accepted)].Payload))
+		return false
 	}
-	if b.Pending() != 0 || b.BytesRead() != a.BytesWritten() {
-		w.Violationf("C01:alignment", "after the last packet %d bytes remain unread (read %d of %d)", b.Pending(), b.BytesRead(), a.BytesWritten())
+	if d.dstConn.Pending() != 0 || d.dstConn.BytesRead() != d.srcConn.BytesWritten() {
+		w.Violationf("C01:alignment"+suffix, "[%s] after the last packet %d bytes remain unread (read %d of %d)", d.name, d.dstConn.Pending(), d.dstConn.BytesRead(), d.srcConn.BytesWritten())
+		return false
 	}
-	_ = time.Second
+	return true
 }
 
 // c01Class names the input class of a failure so that distinct defects get
